@@ -179,6 +179,27 @@ func RuleNI(fieldNames ...string) func(*Ctx) {
 				continue
 			}
 			n := 0
+			// a set the run itself fills (a visited / uniqueness set) has an element store
+			// outside the setup functions; a set that only options fill is what the host said
+			runFilled := false
+			c.P.Funcs(func(p *pkgT, fd *ast.FuncDecl) {
+				info := p.TypesInfo
+				if p == pk && (isOptionCtor(info, fd) || strings.HasPrefix(fd.Name.Name, "New")) {
+					return
+				}
+				ast.Inspect(fd.Body, func(x ast.Node) bool {
+					if as, ok := x.(*ast.AssignStmt); ok {
+						for _, l := range as.Lhs {
+							if ix, ok := ast.Unparen(l).(*ast.IndexExpr); ok {
+								if s2, ok := ast.Unparen(ix.X).(*ast.SelectorExpr); ok && info.ObjectOf(s2.Sel) == types.Object(fld) {
+									runFilled = true
+								}
+							}
+						}
+					}
+					return true
+				})
+			})
 			c.P.Funcs(func(p *pkgT, fd *ast.FuncDecl) {
 				info := p.TypesInfo
 				// the option constructor / NewJApiCore may initialise the field
@@ -192,10 +213,32 @@ func RuleNI(fieldNames ...string) func(*Ctx) {
 					key := fmt.Sprintf("%s:%s#%d", fname, c.P.DeclName(fd), n)
 					pos := c.P.Pos(sel.Pos())
 					if isSetup {
+						// an option-filled set holds exactly what the options put there: the
+						// constructor allocates it, only an option constructor stores elements
+						if !runFilled && !isOptionCtor(info, fd) {
+							stores := false
+							ast.Inspect(fd.Body, func(y ast.Node) bool {
+								if as, ok := y.(*ast.AssignStmt); ok {
+									for _, l := range as.Lhs {
+										if ix, ok := ast.Unparen(l).(*ast.IndexExpr); ok && ast.Unparen(ix.X) == ast.Expr(sel) {
+											stores = true
+										}
+									}
+								}
+								return true
+							})
+							if stores {
+								sc.Violation(key, pos, fmt.Sprintf("the constructor adds an element to core.%s on its own: the set no longer holds exactly what the host's options said, so a kind nobody banned is refused (and the diagnostic stands at a directive of that kind)", fname))
+								return true
+							}
+						}
 						sc.Holds(key, pos, "initialisation in the constructor / option")
 						return true
 					}
 					why, ok2 := c.readOnlyRejects(p, fd, sel)
+					if ok2 && !runFilled && strings.HasPrefix(why, "visited-set lookup") {
+						why, ok2 = "use at "+pos+" skips or does work depending on core."+fname+", which only options fill: a project without any directive of the listed kinds is processed differently with the option than without it", false
+					}
 					if ok2 {
 						sc.Holds(key, pos, why)
 					} else {
